@@ -222,11 +222,16 @@ class CodemodExecutionContext:
 
     @cached_property
     def find_and_fix_paths(self) -> list[Path]:
+        # `path:line` entries exclude lines, never files: on their own they must not
+        # switch off the default (file-level) excludes
+        file_level_excludes = [
+            pattern for pattern in self.path_exclude if ":" not in pattern
+        ]
         return match_files(
             self.directory,
             self.files_to_analyze,
             # None is effectively a sentinel value to indicate that the default include/exclude paths should be used
-            self.path_exclude or None,
+            file_level_excludes or None,
             self.path_include or None,
         )
 
